@@ -64,7 +64,7 @@ func (c *Ctx) Std() *variants.Std {
 // G loads the generator packages (root, ast, builder, bootstrap commands).
 func (c *Ctx) G() *load.G {
 	if c.g == nil {
-		g, err := load.Load(".", "./ast", "./builder", "./bootstrap/...")
+		g, err := load.Load(".", "./ast", "./builder", "./bootstrap", "./bootstrap/...")
 		if err != nil {
 			c.R.Fatal("cannot load generator packages: %v", err)
 			return nil
